@@ -1162,6 +1162,28 @@ def one_lambdify(ctx, rng, arm, d, drepr, classes, present, evaluable, mixed,
         reached += one_call(ctx, rng, arm, d, drepr, classes, present,
                             evaluable, mixed, original, info, function, xs,
                             vs, call)
+    # histories: the SAME diagram object (hence the same box objects) is
+    # lambdified once more with its symbols listed in another order, or
+    # behind a symbol that does not occur
+    xs2 = xs[1:] + xs[:1]
+    if xs2 == xs or rng.random() < 0.3:
+        xs2 = [_S["fresh"][1]] + [
+            x for x in xs2 if x is not _S["fresh"][1]]
+    if reached and xs2 != xs:
+        vs2 = [rand_value(rng, rng.choice(["float", "float", "int"]))
+               for _ in xs2]
+        try:
+            function2 = d.lambdify(*xs2)
+        except Exception:
+            function2 = None
+        one_call(ctx, rng, arm, d, drepr, classes, present, evaluable, mixed,
+                 original, info, function2, xs2, vs2, ncalls)
+        # ... and the first function still answers for ITS argument order
+        if function is not None:
+            one_call(ctx, rng, arm, d, drepr, classes, present, evaluable,
+                     mixed, original, info, function, xs, values[0],
+                     ncalls + 1)
+        ctx.count("lambdified-again-in-another-symbol-order")
     return 1 if reached else 0
 
 
